@@ -197,7 +197,9 @@ func joinAcceptBlocks(c *Ctx, rule string, fn *ssa.Function, want, other string,
 		}
 	}
 	if nWant == 0 {
-		c.Run.Bad(rule, key+"/callee", fpos(c, fn), "a call of "+strings.TrimPrefix(want, "invoke ")+" on the block "+blockT.String(), "no such call")
+		// not refuted: the block operation may be performed by a helper that receives the block or its method value;
+		// what the function computes is decided by R3.encrypt on the whole function
+		c.Run.Unknown(rule, key+"/callee", fpos(c, fn), "a call of "+strings.TrimPrefix(want, "invoke ")+" on the block "+blockT.String(), "no such call in this function (a helper may perform it)")
 	}
 }
 
